@@ -122,7 +122,7 @@ def gen_scalar(ch: Choices) -> Any:
         return None
     if k == 6:
         return bool(ch.choice(2, "bool"))
-    return [0.5, 1.25, -2.0][ch.choice(3, "float")]
+    return [0.5, 1.0, 2.0, 0.0][ch.choice(4, "float")]  # (some equal an int literal)
 
 
 def gen_value(ch: Choices, kind: str, depth: int = 0, sets: bool = False) -> Any:
